@@ -162,6 +162,15 @@ class HList(object):
         return HList(self.etype, self.seq, self.items)
 
 
+class HBytes(object):
+    """bytearray: a mutable byte string"""
+    def __init__(self, t):
+        self.t = t
+
+    def copy(self):
+        return HBytes(self.t)
+
+
 class HDict(object):
     """Ordered dict: keys (Seq K, distinct, insertion order) + one Array per value component."""
     def __init__(self, ktype, vtype, keys, maps):
